@@ -159,7 +159,7 @@ func drawArg(t *rapid.T) argSpec {
 	}
 }
 
-const ruleHijack = "hijacked routes (pin/add, pin/rm, pin/ls, pin/update, repo/stat, repo/gc, add) with methods POST/GET/PUT, both argument styles (?arg= and /path/{arg}), the endpoint path spelled plainly or with a percent-encoded slash or letter, valid and invalid CIDs and paths, options (type, unpin, stream-errors, pin, only-hash, trickle, layout, chunker, raw-leaves, cid-version, hash, wrap-with-directory, stream-channels, invalid values), cluster answering success or error; oracle: the expected cluster call(s) with the requested path and options, nothing written when the proxy answers with an error, never relayed to the daemon; non-trivial = at least one option or an error; distinct by request line"
+const ruleHijack = "hijacked routes (pin/add, pin/rm, pin/ls, pin/update, repo/stat, repo/gc, add) with methods POST/GET/PUT, both argument styles (?arg= and /path/{arg}), the endpoint path spelled plainly or with a percent-encoded slash or letter, valid and invalid CIDs and paths, multipart uploads that break off between two parts, options (type, unpin, stream-errors, pin, only-hash, trickle, layout, chunker, raw-leaves, cid-version, hash, wrap-with-directory, stream-channels, invalid values), cluster answering success or error; oracle: the expected cluster call(s) with the requested path and options, nothing written when the proxy answers with an error, never relayed to the daemon; non-trivial = at least one option or an error; distinct by request line"
 
 func TestHijacked(t *testing.T) {
 	leg := ev.L("hijacked", ruleHijack)
@@ -185,6 +185,7 @@ func TestHijacked(t *testing.T) {
 		ctype := ""
 		nontrivial := false
 		expectErr := false
+		truncatedCase := false // the answer may be an error or not; see the add route
 		var check func(status int, respBody []byte, trailer http.Header, calls []fakes.RPCCall)
 		fail := func(format string, a ...interface{}) {
 			t.Fatalf("%s\nrequest: %s %s?%s\ncalls: %v", fmt.Sprintf(format, a...), method, u, q.Encode(), callNames(rec.Take()))
@@ -473,6 +474,7 @@ func TestHijacked(t *testing.T) {
 				badOpt = bo[0]
 			}
 			notMultipart := rapid.IntRange(0, 6).Draw(t, "notMultipart") == 0
+			truncated := false
 			method = "POST"
 			if notMultipart {
 				body = []byte("plain body")
@@ -491,6 +493,34 @@ func TestHijacked(t *testing.T) {
 				if nf > 1 {
 					q.Set("wrap-with-directory", "true")
 				}
+				// an upload that breaks off between two parts: the first file
+				// arrived completely, the next part never starts
+				if nf > 1 && rapid.IntRange(0, 1).Draw(t, "truncated") == 0 {
+					delim := []byte("\r\n--" + mw.Boundary() + "\r\n")
+					if i := bytes.Index(body[10:], delim); i > 0 {
+						// cut right after the boundary, after its line end, inside the
+						// next part's headers, or inside its content
+						cut := 10 + i + len(delim)
+						switch rapid.IntRange(0, 3).Draw(t, "cutAt") {
+						case 0:
+							cut -= 2
+						case 2:
+							cut += 20
+						case 3:
+							if j := bytes.Index(body[cut:], []byte("\r\n\r\n")); j > 0 {
+								cut += j + 4 + rapid.IntRange(0, 3).Draw(t, "intoContent")
+							}
+						}
+						if cut > len(body)-4 {
+							cut = len(body) - 4
+						}
+						body = body[:cut]
+						truncated = true
+						if rapid.Bool().Draw(t, "noWrap") {
+							q.Del("wrap-with-directory")
+						}
+					}
+				}
 			}
 			rec.Set("Cluster.BlockAllocate", func(interface{}) (interface{}, error) { return []peer.ID{gen.Peers[0]}, nil })
 			if clusterFails {
@@ -502,6 +532,24 @@ func TestHijacked(t *testing.T) {
 			// sha2-512 needs CIDv1: "invalid v0 prefix"
 			badCombo := q.Get("hash") == "sha2-512" && q.Get("cid-version") != "1"
 			invalid := notMultipart || badOpt != "" || onlyHash || badCombo
+			if truncated && !invalid {
+				nontrivial = true
+				truncatedCase = true
+				check = func(status int, rb []byte, tr http.Header, calls []fakes.RPCCall) {
+					// whether such a body counts as complete is the multipart
+					// reader's call (a wrapped upload is accepted as far as it
+					// got); the claim is only: an error answer means nothing pinned
+					if (status < 400 && tr.Get("X-Stream-Error") == "") || clusterFails {
+						return // accepted as far as it got, or the error is the injected pin failure itself
+					}
+					for _, c := range calls {
+						if c.Name == "Cluster.Pin" || c.Name == "Cluster.PinPath" {
+							fail("the add was answered with an error (%q) but the cluster pinned: %v", tr.Get("X-Stream-Error"), callNames(calls))
+						}
+					}
+				}
+				break
+			}
 			expectErr = invalid || clusterFails
 			nontrivial = nontrivial || onlyHash || noPin || invalid
 			check = func(status int, rb []byte, tr http.Header, calls []fakes.RPCCall) {
@@ -578,7 +626,7 @@ func TestHijacked(t *testing.T) {
 			t.Fatalf("hijacked request reached the daemon: %s %s?%s\nrequest: %s %s", d.method, d.path, d.rawQuery, method, u)
 		}
 		answeredErr := resp.StatusCode >= 400 || resp.Trailer.Get("X-Stream-Error") != ""
-		if expectErr && !answeredErr {
+		if expectErr && !answeredErr && !truncatedCase {
 			t.Fatalf("expected an error answer, got %d %q\nrequest: %s %s", resp.StatusCode, rb, method, u)
 		}
 		if answeredErr && route != "pin/update" && route != "add" {
@@ -591,11 +639,17 @@ func TestHijacked(t *testing.T) {
 		if route == "repo/gc" && !clusterFails {
 			answeredErr = resp.StatusCode >= 400 // collection errors legitimately travel in the trailer
 		}
-		if !expectErr && answeredErr {
+		if !expectErr && answeredErr && !truncatedCase {
 			t.Fatalf("valid request answered with an error: %d %q trailer %q\nrequest: %s %s", resp.StatusCode, rb, resp.Trailer.Get("X-Stream-Error"), method, u)
 		}
 		check(resp.StatusCode, rb, resp.Trailer, calls)
 		cl := []string{"route:" + route}
+		if truncatedCase {
+			cl = append(cl, "truncated-upload")
+			if answeredErr {
+				cl = append(cl, "truncated-upload-refused")
+			}
+		}
 		if expectErr {
 			cl = append(cl, "error-answer")
 		}
